@@ -19,6 +19,7 @@ import (
 type preT struct {
 	cls, hashSet          int64
 	hash                  string
+	content               string
 	ob                    obsT
 	voteOracle            int64 // oracle id the claim's bridger maps to (-1: none)
 	voteOracleOnline      bool
@@ -27,6 +28,7 @@ type preT struct {
 	evmFailed             bool
 	storeChangedOnFailure bool
 	blockSlashed          []int
+	bankChanged           bool
 }
 
 type monitor struct {
@@ -34,11 +36,13 @@ type monitor struct {
 	voted     map[int64]map[uint64]bool // oracle id -> nonces it had an accepted vote for (whole history)
 	lastAcc   map[int64]uint64          // oracle id -> last accepted nonce in its current registration
 	execCount map[uint64]int
+	moneyRuns map[uint64]int // event nonce -> executions after which balances / supply differed
+	byContent map[uint64]map[string]map[int64]bool // event nonce -> claim content -> oracles with an accepted vote for exactly that content
 	opIdx     int
 }
 
 func newMonitor(h *hist) *monitor {
-	return &monitor{h: h, voted: map[int64]map[uint64]bool{}, lastAcc: map[int64]uint64{}, execCount: map[uint64]int{}}
+	return &monitor{h: h, voted: map[int64]map[uint64]bool{}, lastAcc: map[int64]uint64{}, execCount: map[uint64]int{}, moneyRuns: map[uint64]int{}, byContent: map[uint64]map[string]map[int64]bool{}}
 }
 
 var powerReduction = new(big.Int).Exp(big.NewInt(10), big.NewInt(20), nil)
@@ -280,6 +284,32 @@ func (m *monitor) after(o Op, pre *preT, ob obsT, err error, events sdk.Events) 
 		if !cursorOK {
 			m.fail("C01:cursor", fmt.Sprintf("per-oracle last event nonce of oracle %d is not %d after its accepted vote", pre.voteOracle, o.Nonce))
 		}
+		if m.byContent[o.Nonce] == nil {
+			m.byContent[o.Nonce] = map[string]map[int64]bool{}
+		}
+		if m.byContent[o.Nonce][pre.content] == nil {
+			m.byContent[o.Nonce][pre.content] = map[int64]bool{}
+		}
+		m.byContent[o.Nonce][pre.content][pre.voteOracle] = true
+		if len(m.byContent[o.Nonce]) > 1 {
+			h.rep.Count("vote:conflicting-content-for-nonce")
+		}
+		// ---- C02: the event that takes effect is the one THIS vote reports (TryAttestation processes the voter's claim):
+		//      the distinct registered oracles that voted for exactly this content must hold the quorum ----
+		if flipped {
+			Pc := new(big.Int)
+			for _, rec := range old.oracles {
+				if rec.id >= 0 && m.byContent[o.Nonce][pre.content][rec.id] {
+					Pc.Add(Pc, powerOf(rec.stake))
+				}
+			}
+			lhsC := new(big.Int).Mul(big.NewInt(66), old.total)
+			rhsC := new(big.Int).Add(new(big.Int).Mul(big.NewInt(100), Pc), big.NewInt(99))
+			if lhsC.Cmp(rhsC) > 0 && (a == nil || !hasDup(a.votes)) {
+				m.fail("C02:quorum-content", fmt.Sprintf("event nonce %d took effect with content %.60s… although the oracles that voted for exactly that content hold power %s of recorded total %s (bar %s); %d different contents were voted for this nonce, the attestation pools votes %v",
+					o.Nonce, pre.content, Pc, old.total, new(big.Int).Quo(lhsC, big.NewInt(100)), len(m.byContent[o.Nonce]), votesOf(a)))
+			}
+		}
 		// ---- C02: quorum of distinct registered oracles at the moment the event takes effect ----
 		if flipped {
 			distinct := map[int64]bool{}
@@ -349,6 +379,18 @@ func (m *monitor) after(o Op, pre *preT, ob obsT, err error, events sdk.Events) 
 	case "exec", "exec_evm":
 		_, was := h.pendingHas(old.pending, o.Nonce)
 		_, is := h.pendingHas(ob.pending, o.Nonce)
+		// the effects of a parked claim (credit of the receiver, mint, escrow ...) at most once per event nonce, whatever
+		// the call reported: balances / supply may differ after at most one execution attempt of a nonce
+		if pre.bankChanged {
+			m.moneyRuns[o.Nonce]++
+			h.rep.Count("exec:moved-coins")
+			if m.moneyRuns[o.Nonce] > 1 {
+				m.fail("C01:exec-twice", fmt.Sprintf("the effects of parked claim %d moved coins in %d separate executions (accepted=%v, still parked=%v)", o.Nonce, m.moneyRuns[o.Nonce], accepted, is))
+			}
+			if !accepted {
+				m.fail("C01:failed-exec-left-effects", fmt.Sprintf("failed execution of nonce %d changed balances / supply", o.Nonce))
+			}
+		}
 		if accepted {
 			nontrivial = true
 			m.execCount[o.Nonce]++
